@@ -310,7 +310,7 @@ func (v *FnVC) substr(s, lo, hi string) string {
 		// length and bytes of a substring (valid range only)
 		v.asserts = append(v.asserts, fmt.Sprintf("(=> (and (<= 0 %s) (<= %s %s) (<= %s (len_s %s))) (= (len_s %s) (- %s %s)))", lo, lo, hi, hi, s, t, hi, lo))
 		v.asserts = append(v.asserts, v.strWF(t))
-		v.asserts = append(v.asserts, fmt.Sprintf("(forall ((k Int)) (! (=> (and (<= 0 k) (< k (- %s %s))) (= (at_s %s k) (at_s %s (+ %s k)))) :pattern ((at_s %s k))))", hi, lo, t, s, lo, t))
+		v.asserts = append(v.asserts, quantPat(fmt.Sprintf("(=> (and (<= 0 k) (< k (- %s %s))) (= (at_s %s k) (at_s %s (+ %s k))))", hi, lo, t, s, lo), fmt.Sprintf("(at_s %s k)", t)))
 		v.asserts = append(v.asserts, fmt.Sprintf("(=> (and (= %s 0) (= %s (len_s %s))) (= %s %s))", lo, hi, s, t, s))
 	}
 	return t
@@ -483,7 +483,7 @@ func (v *FnVC) concat(a, b string) string {
 		v.implFacts[key] = true
 		v.asserts = append(v.asserts, fmt.Sprintf("(= (len_s %s) (+ (len_s %s) (len_s %s)))", t, a, b))
 		v.asserts = append(v.asserts, v.strWF(t))
-		v.asserts = append(v.asserts, fmt.Sprintf("(forall ((k Int)) (! (=> (and (<= 0 k) (< k (len_s %s))) (= (at_s %s k) (ite (< k (len_s %s)) (at_s %s k) (at_s %s (- k (len_s %s)))))) :pattern ((at_s %s k))))", t, t, a, a, b, a, t))
+		v.asserts = append(v.asserts, quantPat(fmt.Sprintf("(=> (and (<= 0 k) (< k (len_s %s))) (= (at_s %s k) (ite (< k (len_s %s)) (at_s %s k) (at_s %s (- k (len_s %s))))))", t, t, a, a, b, a), fmt.Sprintf("(at_s %s k)", t)))
 	}
 	return t
 }
@@ -1268,4 +1268,13 @@ func (v *FnVC) recFrameAxiom(sf *SpecFunc, fname string, sig []string, specPkg *
 	lhs := fmt.Sprintf("(%s %s)", fname, strings.Join(argsA, " "))
 	rhs := fmt.Sprintf("(%s %s)", fname, strings.Join(argsB, " "))
 	v.asserts = append(v.asserts, fmt.Sprintf("(forall (%s) (! (=> (>= fi fa1) (= %s %s)) :pattern (%s)))", strings.Join(binds, " "), lhs, rhs, lhs))
+}
+
+// quantPat builds (forall ((k Int)) body) with an explicit pattern unless the pattern would contain an ite
+// (z3 rejects those; it then chooses patterns itself).
+func quantPat(body, pat string) string {
+	if strings.Contains(pat, "(ite ") {
+		return fmt.Sprintf("(forall ((k Int)) %s)", body)
+	}
+	return fmt.Sprintf("(forall ((k Int)) (! %s :pattern (%s)))", body, pat)
 }
